@@ -636,4 +636,35 @@ Section Put.
     - destruct (put_empty t k v R KV) as [t' [P [I' C]]]. exists t'. split; auto. split; auto.
       rewrite C. unfold p_contents, p_tree. now rewrite R.
   Qed.
+
+  (** ** histories of Put and the checked queries *)
+  Definition nd_event (e : ev V) : Prop :=
+    match e with
+    | EPut k _ => kvalid k
+    | _ => checked_query e
+    end.
+
+  Lemma p_run_noDelete : forall es t m, PInv t -> p_contents t = m -> Forall nd_event es ->
+    p_run t es = s_run m es.
+  Proof.
+    induction es as [|e es IH]; intros t m I C F; [reflexivity|].
+    inversion F as [|? ? E F']; subst. cbn [p_run s_run].
+    destruct e; cbn [nd_event] in E;
+      try (rewrite (p_step_checked t _ (PInv_check t I) E); cbn [s_step snd]; f_equal; now apply IH).
+    destruct (p_put_preserves t k v I E) as [t' [P [I' C']]].
+    cbn [p_step s_step]. rewrite P. cbn [rbind lift_mut]. f_equal. now apply IH.
+  Qed.
+
+  Theorem patricia_refines_noDelete : forall es : list (ev V),
+    Forall nd_event es -> p_run p_new es = s_run [] es.
+  Proof.
+    intros es F. apply p_run_noDelete; auto. unfold PInv. reflexivity.
+  Qed.
+
+  Theorem patricia_put_invariant : forall t k v, PInv t -> kvalid k ->
+    exists t', p_put t k v = ROk t' /\ p_inv_check t' = true /\ p_contents t' = sput k v (p_contents t).
+  Proof.
+    intros t k v I KV. destruct (p_put_preserves t k v I KV) as [t' [P [I' C]]].
+    exists t'. repeat split; auto. now apply PInv_check.
+  Qed.
 End Put.
